@@ -287,6 +287,39 @@ theorem getMaxValidity_min (cs : List (Cav B)) :
       rw [← e s hs, ← e s' hs', ← hms]
       exact h1
 
+/-- **the reported maximum is the limit the set enforces**: a discharge request passes every
+MaxValidity caveat of the set (nested ones included) exactly when the set has no such caveat or the
+exact lifetime requested is within the duration `GetMaxValidity` reports — so a third party that
+clamps the discharge lifetime to the reported value satisfies every limit, and nothing smaller is
+needed -/
+theorem maxValidity_set_iff (cs : List (Cav B)) (a : Access) (d : DischargeReq) (hd : a.discharge = some d) :
+    (∀ s, HasLimit cs s → prohibits (.maxValidity s : Cav B) a = []) ↔
+      ((getMaxValidity cs).2 = false ∨ lifetimeNanos a d ≤ (getMaxValidity cs).1) := by
+  obtain ⟨⟨_, lower, attained⟩, _, _, flag⟩ := getMaxValidity_min cs
+  have one : ∀ s, prohibits (.maxValidity s : Cav B) a = [] ↔ lifetimeNanos a d ≤ GoTime.durationOfSecs s := by
+    intro s
+    rw [maxValidity_iff_wrapped]
+    constructor
+    · rintro ⟨d', hd', hle⟩; rw [hd] at hd'; cases hd'; exact hle
+    · intro hle; exact ⟨d, hd, hle⟩
+  constructor
+  · intro hall
+    cases hp : (getMaxValidity cs).2 with
+    | false => exact Or.inl rfl
+    | true =>
+      right
+      obtain ⟨s0, hs0⟩ := flag.mp hp
+      rcases attained with hm | ⟨s, hs, hms⟩
+      · have h1 := lower s0 hs0
+        have h2 := durationOfSecs_lt_max s0
+        omega
+      · rw [hms]; exact (one s).mp (hall s hs)
+  · rintro (hp | hle) s hs
+    · have := flag.mpr ⟨s, hs⟩
+      rw [hp] at this; cases this
+    · have := lower s hs
+      exact (one s).mpr (by omega)
+
 /-- the reported value depends only on WHICH limits occur (at any depth), not on where or in which
 order: two sets with the same limits report the same -/
 theorem getMaxValidity_same_limits (cs cs' : List (Cav B))
@@ -367,6 +400,15 @@ example : ∀ s, HasLimit ([.maxValidity 5] : List (Cav Unit)) s → s.toNat * 1
 example : ([.maxValidity 5, .isUser 1] : List (Cav Unit)).Perm [.isUser 1, .maxValidity 5] :=
   List.Perm.swap _ _ _
 
+-- `maxValidity_set_iff`: the one-hour request passes all three (nested) limits of a set whose reported
+-- maximum is 2 h ... and fails against `sampleSet`, whose reported maximum is 60 s
+example : (∀ s, HasLimit ([.maxValidity 7200, .ifPresent false (.cons (.maxValidity 3600) .nil) 0] : List (Cav Unit)) s →
+    prohibits (.maxValidity s : Cav Unit) sampleAccess = []) :=
+  (maxValidity_set_iff _ sampleAccess sampleReq rfl).mpr (Or.inr (by decide))
+example : ¬ (∀ s, HasLimit sampleSet s → prohibits (.maxValidity s : Cav Unit) sampleAccess = []) := by
+  rw [maxValidity_set_iff sampleSet sampleAccess sampleReq rfl]
+  decide
+
 end Macaroon.Props.C18
 
 #print axioms Macaroon.Props.C18.confineProhibits_iff
@@ -389,3 +431,4 @@ end Macaroon.Props.C18
 #print axioms Macaroon.Props.C18.getMaxValidity_min
 #print axioms Macaroon.Props.C18.getMaxValidity_same_limits
 #print axioms Macaroon.Props.C18.getMaxValidity_order_independent
+#print axioms Macaroon.Props.C18.maxValidity_set_iff
